@@ -71,7 +71,7 @@ func c13R2(p *Prog, r *Report) {
 				}
 			}
 			tstr := types.TypeString(info.TypeOf(ta.Type), nil)
-			key := fi.Name() + "|" + tstr
+			key := p.anchorFor(fi, fnPartsOf(mapKeys(auditedTypeAsserts))) + "|" + tstr
 			site := fi.Name() + "/assert " + tstr
 			if why, ok := auditedTypeAsserts[key]; ok {
 				r.OK(site, p.PosStr(ta.Pos()), "audited: "+why)
@@ -131,7 +131,7 @@ func c13R2(p *Prog, r *Report) {
 				r.OK(site, pos, "dominated by a nil test of Pkg() on the same object")
 				return
 			}
-			if why, ok := auditedPkgDeref[fi.Name()]; ok {
+			if why, ok := auditedPkgDeref[p.anchorFor(fi, mapKeys(auditedPkgDeref))]; ok {
 				r.OK(site, pos, "audited: "+why)
 				r.Tables = append(r.Tables, "C13.R2b "+fi.Name()+" — "+why)
 				return
@@ -525,7 +525,7 @@ func lengthFact(p *Prog, fi *FuncInfo, base ast.Expr, need int64, stack []ast.No
 		}
 	}
 	// loop induction: for i := 0; i < len(x); i++ { x[i] } is non-constant and not examined here
-	if why, ok := auditedLengths[fi.Name()+"|"+bs]; ok {
+	if why, ok := auditedLengths[p.anchorFor(fi, fnPartsOf(mapKeys(auditedLengths)))+"|"+bs]; ok {
 		return true, "audited: " + why
 	}
 	return false, "no fact found"
@@ -679,6 +679,9 @@ func c13R3(p *Prog, r *Report) {
 			if ec.calle != nil && objPkgPath(ec.calle) == "fmt" && (strings.HasPrefix(ec.calle.Name(), "Fprint") || strings.HasPrefix(ec.calle.Name(), "Print")) {
 				continue
 			}
+			if ec.calle != nil && (objPkgPath(ec.calle) == "strings" && recvTypeName(ec.calle) == "Builder" || objPkgPath(ec.calle) == "bytes" && recvTypeName(ec.calle) == "Buffer") {
+				continue // documented: these writers always return a nil error
+			}
 			if ec.calle != nil && (isFunc(ec.calle, "fmt", "", "Errorf") || isFunc(ec.calle, "errors", "", "New") || isFunc(ec.calle, modPath+"/builder", "", "NewError") || isFunc(ec.calle, modPath+"/builder", "Error", "Lift")) {
 				continue // constructors: produce the error that is being reported
 			}
@@ -689,7 +692,7 @@ func c13R3(p *Prog, r *Report) {
 			cnt[name]++
 			site := fmt.Sprintf("%s/call %s#%d", fi.Name(), name, cnt[name])
 			pos := p.PosStr(ec.call.Pos())
-			akey := fi.Name() + "|" + name
+			akey := p.anchorFor(fi, fnPartsOf(append(mapKeys(auditedErrDrops), mapKeys(sanctionedEdges)...))) + "|" + name
 			if why, ok := auditedErrDrops[akey]; ok {
 				r.OK(site, pos, "audited drop: "+why)
 				r.Tables = append(r.Tables, "C13.R3 audited drop "+akey+" — "+why)
@@ -1092,7 +1095,7 @@ func c13R5(p *Prog, r *Report) {
 				r.Bad(site, pos, "loop condition "+exprString(fs.Cond)+" is not a recognised bound")
 				return true
 			}
-			why, ok := auditedLoops[fi.Name()]
+			why, ok := auditedLoops[p.anchorFor(fi, mapKeys(auditedLoops))]
 			if !ok {
 				r.Bad(site, pos, "unbounded `for` loop outside the audited allocators")
 				return true
